@@ -239,10 +239,41 @@ class Prov:
                             return e
         return E('const', c=c, ty=c.get('ty'))
 
+    def _field_stores(self, l, fidx):
+        key = ('stores', l, fidx)
+        if key not in self._cache:
+            out = []
+            for b, i, st in self.fn.stmts():
+                if st['k'] == 'assign':
+                    lp = st['lhs']
+                    if lp['l'] == l and len(lp['p']) >= 2 and lp['p'][0] == 'deref' and isinstance(lp['p'][1], dict) and lp['p'][1].get('f') == fidx:
+                        out.append((b, i, st, len(lp['p'])))
+            self._cache[key] = out
+        return self._cache[key]
+
     def place(self, pl, block, idx, depth=0):
+        # store-to-load forwarding for fields of `*param` (e.g. self.r = Some(k); ... self.r.unwrap())
+        pp = pl['p']
+        if len(pp) >= 2 and pp[0] == 'deref' and isinstance(pp[1], dict) and 'f' in pp[1] and 1 <= pl['l'] <= self.fn.arg_count and depth < MAXDEPTH:
+            stores = self._field_stores(pl['l'], pp[1]['f'])
+            if stores:
+                dom = self.fn.dominators().get(block, set())
+                cands = [(b, i, st, n) for (b, i, st, n) in stores if n == 2 and ((b in dom and b != block) or (b == block and i < idx))]
+                if len(stores) == 1 and len(cands) == 1:
+                    b, i, st, n = cands[0]
+                    e = self.rvalue(st['rv'], b, i, depth + 1, None)
+                    rest = {'l': pl['l'], 'p': pp[2:]}
+                    return self._project(e, rest['p'], block, idx, depth)
+                if len(cands) != len(stores) or len(stores) > 1:
+                    base = self.local(pl['l'], block, idx, depth)
+                    e0 = self._project(base, pp, block, idx, depth)
+                    return E('phi', None, [e0] + [self._project(self.rvalue(st['rv'], b, i, depth + 1, None), pp[2:], block, idx, depth) for (b, i, st, n) in stores if n == 2])
         base = self.local(pl['l'], block, idx, depth)
+        return self._project(base, pl['p'], block, idx, depth)
+
+    def _project(self, base, projs, block, idx, depth):
         e = base
-        for p in pl['p']:
+        for p in projs:
             if p == 'deref':
                 e = mk_deref(e)
             elif 'f' in p:
